@@ -295,7 +295,7 @@ pub fn finish(
     let evdir = verif_root().join("evidence");
     let _ = std::fs::create_dir_all(&evdir);
     std::fs::write(
-        evdir.join(format!("{}.json", ctx.prop)),
+        evdir.join(format!("{}.json", std::env::var("VERIF_EVIDENCE_NAME").unwrap_or_else(|_| ctx.prop.clone()))),
         serde_json::to_string_pretty(&ev).unwrap(),
     )
     .unwrap();
